@@ -98,6 +98,10 @@ def lift(x):
         pass
     if xmode():
         return lift_x(x)
+    if isinstance(x, float) and (x != x or x in (math.inf, -math.inf)):
+        # a non-finite literal in exact-real mode (e.g. `t.abs() == math.inf`): an extended-real constant, so that comparing a
+        # real term with it folds to the constant truth value
+        return lift_x(x)
     return tm.const(x)
 
 
